@@ -21,6 +21,7 @@
 #include "icinga/host.hpp"
 #include "icinga/service.hpp"
 #include "remote/apiuser.hpp"
+#include "remote/apilistener.hpp"
 #include "remote/filterutility.hpp"
 #include "remote/eventqueue.hpp"
 #include "remote/consolehandler.hpp"
@@ -36,6 +37,7 @@ static bool l_SbMarkHit = false;
 static Value SbMarkFn(const std::vector<Value>&) { l_SbMarkHit = true; return Empty; }
 static const char *SB_PASSWORD = "sbSECRETpw";
 static const char *SB_SALT = "sbSALTval";
+static const char *SB_SALT_FIELD = "sbSALTfld";     // ApiListener.ticket_salt of the registered (never started) listener "sbapi"
 static bool l_SbInit = false;
 
 // the live shared containers the purity probes hand to every whitelisted function: unsorted, with duplicates, nested,
@@ -73,6 +75,13 @@ static void SbInitOnce()
 	  << "object ApiUser \"sbu2\" { password = \"" << SB_PASSWORD << "\"\n  permissions = [ { permission = \"objects/query/Host\", filter = {{ host.name == \"sbh\" }} } ] }\n";
 	LoadConfig(c.str());
 	ScriptGlobal::Set("sbmark", new Function("sbmark", SbMarkFn, {}, true));
+	// an ApiListener object that scripts can find (get_object(ApiListener, "sbapi")): registered, never configured or started
+	{
+		ApiListener::Ptr l = new ApiListener();
+		l->SetName("sbapi");
+		l->SetTicketSalt(SB_SALT_FIELD);
+		l->Register();
+	}
 	std::ofstream f(ScratchDir() + "/data/sbfile.txt");
 	f << "protected file\n";
 }
@@ -234,7 +243,7 @@ static std::string DiffSnap(const SbSnap& a, const SbSnap& b)
 
 static bool HasSecret(const std::string& s)
 {
-	return s.find(SB_PASSWORD) != std::string::npos || s.find(SB_SALT) != std::string::npos;
+	return s.find(SB_PASSWORD) != std::string::npos || s.find(SB_SALT) != std::string::npos || s.find(SB_SALT_FIELD) != std::string::npos;
 }
 
 // ------------------------------------------------------------------ live enumeration
